@@ -1,0 +1,6 @@
+//go:build !verif
+// +build !verif
+
+package jsonapi
+
+func verifTrace(string, string) {}
